@@ -18,13 +18,54 @@ impl Handler { pub fn emit_err(&self, _e: CompileError) -> ErrorEmitted { std::m
 @MyMath@
 @impl_u8@
 @impl_u64@
+@impl_u16@
+@impl_u32@
 #[derive(Clone, Debug, PartialEq, Eq)]
 @Range@
 @impl_Range@
 
+// ---------------- Pattern::from_literal (pattern.rs) with the real Literal enum (language/literal.rs) ----------------
+pub mod span { #[derive(Clone, Debug, PartialEq, Eq)] pub struct Span; impl Span { pub fn as_str(&self) -> &str { "" } } }
+/// shim of sway_types::U256: value as two 128-bit halves; TryFrom<U256> for u64 fails above u64::MAX like the real one
+#[derive(Clone, Copy, Debug, PartialEq, Eq)] pub struct U256 { pub hi: u128, pub lo: u128 }
+impl TryFrom<U256> for u64 { type Error = (); fn try_from(v: U256) -> Result<u64, ()> { if v.hi == 0 && v.lo <= u64::MAX as u128 { Ok(v.lo as u64) } else { Err(()) } } }
+#[derive(Clone, Debug, PartialEq, Eq)] pub struct StructPattern;
+#[derive(Clone, Debug, PartialEq, Eq)] pub struct EnumPattern;
+#[derive(Clone, Debug, PartialEq, Eq)] pub struct PatStack;
+#[derive(Debug, Clone, PartialEq, Eq)]
+@Literal@
+#[derive(Clone, Debug, PartialEq, Eq)]
+@Pattern@
+impl Pattern {
+    @from_literal@
+}
+
 #[cfg(kani)]
 mod h {
     use super::*;
+    /// an integer literal x of width w becomes the w-tagged point range [x, x]; bool and b256 are kept
+    #[kani::proof]
+    fn from_literal_value() {
+        let which: u8 = kani::any();
+        kani::assume(which < 7);
+        let x: u64 = kani::any();
+        let lit = match which { 0 => Literal::U8(x as u8), 1 => Literal::U16(x as u16), 2 => Literal::U32(x as u32), 3 => Literal::U64(x),
+                                4 => Literal::U256(U256 { hi: 0, lo: x as u128 }), 5 => Literal::Numeric(x), _ => Literal::Boolean(x & 1 == 1) };
+        let p = Pattern::from_literal(lit);
+        let ok = match (which, &p) {
+            (0, Pattern::U8(r)) => r.first == x as u8 && r.last == x as u8, (1, Pattern::U16(r)) => r.first == x as u16 && r.last == x as u16,
+            (2, Pattern::U32(r)) => r.first == x as u32 && r.last == x as u32, (3, Pattern::U64(r)) => r.first == x && r.last == x,
+            (4, Pattern::U64(r)) => r.first == x && r.last == x, (5, Pattern::Numeric(r)) => r.first == x && r.last == x,
+            (6, Pattern::Boolean(b)) => *b == (x & 1 == 1), _ => false };
+        assert!(ok, "OB: a literal pattern must become the point range of its own value, tagged with its own width");
+        std::mem::forget(p);
+    }
+    /// totality: no literal the parser can produce makes the analysis panic
+    #[kani::proof]
+    fn from_literal_u256_total() {
+        let p = Pattern::from_literal(Literal::U256(U256 { hi: kani::any(), lo: kani::any() }));
+        std::mem::forget(p);
+    }
     fn inside<T: PartialOrd>(v: &T, first: &T, last: &T) -> bool { first <= v && v <= last }
     macro_rules! leaf { ($T:ty, $ov:ident, $w1:ident, $enc:ident, $join:ident) => {
         #[kani::proof] fn $ov() {
@@ -139,18 +180,25 @@ COLL = r'''
 
 
 def build(tier):
+    PF = "sway-core/src/semantic_analysis/ast_node/expression/match_expression/analysis/pattern.rs"
     specs = [
+        {"id": "Literal", "file": "sway-core/src/language/literal.rs", "locator": {"kind": "item", "item": "enum", "name": "Literal", "attrs": "strip"}},
+        {"id": "Pattern", "file": PF, "locator": {"kind": "item", "item": "enum", "name": "Pattern", "attrs": "strip"}},
+        {"id": "from_literal", "file": PF, "locator": {"kind": "impl_fn", "self_ty": "Pattern", "name": "from_literal", "trait": "-"}},
         {"id": "MyMath", "file": RF, "locator": {"kind": "item", "item": "trait", "name": "MyMath"}},
         {"id": "impl_u8", "file": RF, "locator": {"kind": "impl", "self_ty": "u8", "trait": "MyMath<u8>"}},
         {"id": "impl_u64", "file": RF, "locator": {"kind": "impl", "self_ty": "u64", "trait": "MyMath<u64>"}},
+        {"id": "impl_u16", "file": RF, "locator": {"kind": "impl", "self_ty": "u16", "trait": "MyMath<u16>"}},
+        {"id": "impl_u32", "file": RF, "locator": {"kind": "impl", "self_ty": "u32", "trait": "MyMath<u32>"}},
         {"id": "Range", "file": RF, "locator": {"kind": "item", "item": "struct", "name": "Range", "attrs": "strip"}},
         {"id": "impl_Range", "file": RF, "locator": {"kind": "impl", "self_ty": "Range<T>", "trait": "-"}},
     ]
     fr = vf.extract(specs)
     src = ENV
     for k in fr:
-        src = src.replace("@%s@" % k, fr[k]["text"])
-    obs = []
+        src = src.replace("@%s@" % k, re.sub(r"^pub\(crate\) ", "pub ", fr[k]["text"]))
+    obs = [vf.Ob("from_literal_value", "C14", panic_prop="C17", what="Pattern::from_literal: an integer literal of width w becomes the w-tagged point range [x, x] (the precondition of the range algebra below)"),
+           vf.Ob("from_literal_u256_total", "C14", panic_prop="C17", known="D5", what="Pattern::from_literal never panics on a u256 literal")]
     for T in ("u8", "u64"):
         for n, w in (("overlaps", "overlaps <=> the ranges share a value"), ("within_one", "within_one <=> disjoint and adjacent"),
                      ("encompasses", "encompasses <=> subset"), ("join", "join_ranges denotes the union, fails exactly on separated ranges")):
